@@ -359,13 +359,19 @@ pub fn read_settings<T: ConnectionState>(c: &T) -> Vec<(u64, u64)> {
     ]
 }
 
-fn drive(streams: &[UniSpec], role_server: bool, cfg: NetCfg, credit: Option<u64>, grease: bool, order: &[usize]) -> Result<Observed, Violation> {
+fn drive(streams: &[UniSpec], role_server: bool, cfg: NetCfg, credit: Option<u64>, grease: bool, order: &[usize], stall_grease: bool) -> Result<Observed, Violation> {
     let net = Net::new(cfg);
     let h3side = if role_server { SERVER } else { CLIENT };
     let peer = 1 - h3side;
     {
         let mut n = net.lock().unwrap();
         n.sides[h3side as usize].uni_credit = credit;
+        if stall_grease {
+            // the peer never reads h3's 4th outgoing unidirectional stream (the grease stream) and its window is
+            // smaller than what h3 writes there: writes on it stall for ever once it has been opened
+            let id = (3u64 << 2) | 2 | h3side as u64;
+            n.stall_writes(id, h3side, true);
+        }
         for &i in order {
             let s = &streams[i];
             let id = n.raw_open_next(peer, true);
@@ -583,7 +589,7 @@ impl Check for C04 {
     fn meta(&self) -> Meta {
         Meta {
             level: "exploration",
-            rule: "peer behaviours of 1-5 unidirectional streams (control, push, QPACK encoder/decoder, WebTransport-uni, grease, other unknown, closed/reset before the type is complete, opened and left silent with no byte or a strict prefix of its type; type varints in every length form) whose control stream carries SETTINGS + legal frames with at most one deviation over {second/duplicate/reserved SETTINGS, GOAWAY ids, CANCEL_PUSH, MAX_PUSH_ID, DATA, HEADERS, PUSH_PROMISE, HTTP/2 types, unknown}, FIN or RESET at a drawn position; one run in ten is the template control + encoder + decoder, all identified, then a late duplicate of one of them; both roles; arrival order and chunking drawn, each behaviour replayed under a second chunking; the endpoint's own outgoing side suffers drawn write pends/partial acceptance and stream-credit shortage (credit for the 4th, grease, stream withheld for ever or granted late); non-trivial = a control stream with >= 2 frames was delivered in >= 2 chunks or credit was short; distinct = distinct schedule signatures",
+            rule: "peer behaviours of 1-5 unidirectional streams (control, push, QPACK encoder/decoder, WebTransport-uni, grease, other unknown, closed/reset before the type is complete, opened and left silent with no byte or a strict prefix of its type; type varints in every length form) whose control stream carries SETTINGS + legal frames with at most one deviation over {second/duplicate/reserved SETTINGS, GOAWAY ids, CANCEL_PUSH, MAX_PUSH_ID, DATA, HEADERS, PUSH_PROMISE, HTTP/2 types, unknown}, FIN or RESET at a drawn position; one run in ten is the template control + encoder + decoder, all identified, then a late duplicate of one of them; both roles; arrival order and chunking drawn, each behaviour replayed under a second chunking; the endpoint's own outgoing side suffers drawn write pends/partial acceptance and stream-credit shortage (credit for the 4th, grease, stream withheld for ever or granted late) or, with credit available, a grease stream whose write stalls for ever; non-trivial = a control stream with >= 2 frames was delivered in >= 2 chunks or credit was short; distinct = distinct schedule signatures",
             real: &["h3 connection driver (ConnectionInner::poll_control / poll_accept_recv / grease stream)", "h3 server and client Connection", "AcceptRecvStream, FrameStream, frame decoder, settings application"],
             stub: &["QUIC transport (SimQuic)", "executor (simexec)", "peer (script of raw uni-stream actions)", "application (accept loop / poll_close driver + a probing request)"],
             assumptions: &["unknown frame before SETTINGS, CANCEL_PUSH to a client, push streams and a RESET control stream whose type may be overtaken are left unconstrained", "two independent causes in one run admit either code"],
@@ -645,6 +651,12 @@ impl Check for C04 {
             1 => Some(3), // the grease stream can never open
             _ => Some(draw(4) as u64),
         };
+        // one run in four with grease on and stream credit available: the grease stream opens but its write never
+        // completes (a different kind of back-pressure on the endpoint's own outgoing side than missing credit)
+        let stall_grease = grease && credit != Some(3) && draw(4) == 3;
+        if stall_grease {
+            obs::count("probe.grease_stream_write_stalled");
+        }
         let refo = reference(&streams, role_server);
         let mut outs = vec![];
         for j in 0..2 {
@@ -657,7 +669,7 @@ impl Check for C04 {
                 cfg.chunk_mode = 2;
             }
             obs::note(|| format!("--- pass {j}: role_server={role_server} grease={grease} credit={credit:?} streams={:?}", streams.iter().map(|s| (s.kind.clone(), s.frames.clone(), s.end.clone(), s.sent, s.bytes.len())).collect::<Vec<_>>()));
-            let o = match drive(&streams, role_server, cfg, credit, grease, &order) {
+            let o = match drive(&streams, role_server, cfg, credit, grease, &order, stall_grease) {
                 Ok(o) => o,
                 Err(v) if v.rule == "HARNESS" => return RunOut { harness_error: Some(v.detail), ..Default::default() },
                 Err(v) => return RunOut::fail(v.fact("role", if role_server { "server" } else { "client" })),
